@@ -175,6 +175,9 @@ class Program(object):
                     raise AnalysisError('cannot parse %s: %s' % (path, e))
                 if os.environ.get('NFCSA_NO_CANON') != '1':
                     from . import inline
+                    from . import alpha as _alpha
+                    for unit, mapping in _alpha.normalise_exact(name, tree):
+                        self.renamed.append((name + '.' + unit, mapping))
                     for unit, n_sites, fnode in inline.expand(name, tree):
                         self.inlined.append((name + '.' + unit, n_sites))
                         self._expanded.append((tree, fnode))
